@@ -24,7 +24,7 @@ Flags == IF scn.failAt = "version"
 Config == Stage("config", "spec", {"config_missing", "config_yaml", "config_field", "config_feature", "config_feature_disable", "config_type"})
 Spec == Stage("spec", "parse", {"spec_missing"})
 Parse == Stage("parse", "ir", {"spec_yaml", "spec_invalid"})
-IR == Stage("ir", "dir", {"not_implemented", "route"})
+IR == Stage("ir", "dir", {"not_implemented", "route", "unnameable", "package_invalid", "expand_route"})
 \* os.ReadDir / os.MkdirAll
 Dir == /\ pc = "dir"
        /\ IF scn.absent THEN acc' = OnEvent(acc, [ev |-> "mkdir", name |-> "", own |-> FALSE]) ELSE acc' = acc
